@@ -1,0 +1,8 @@
+//go:build !verif
+
+package silence
+
+// verifYield marks a boundary between two atomic steps for the verification
+// harness (build tag verif). Without the tag it is an empty function that the
+// compiler inlines away.
+func verifYield(point string, a ...any) {}
